@@ -17,6 +17,17 @@ func csvKinds(c *Ctx) []string {
 func runC04Case(c *Ctx, kind string, input []rune) {
 	op := tokOpLine(kind, 0, input)
 	ts, st := tokenizeImpl(kind, 0, string(input))
+	if kind == "P" {
+		// a state of the library that no stock tokenizer uses: judged by the direct oracle only
+		c.record(op, len(input) >= 2)
+		c.count("kind:P")
+		if st != "" {
+			c.fail(Failure{Kind: "oracle", Op: op, Impl: st, Note: "tokenizer did not return normally: " + st})
+		} else if msg := oracleLossless(input, ts); msg != "" {
+			c.fail(Failure{Kind: "oracle", Op: op, Impl: implLine(ts, st), Note: "generic tokenizer with the C++ comment state: " + msg})
+		}
+		return
+	}
 	c.record(op, len(input) >= 2)
 	c.count("kind:" + kind[:1])
 	c.count(classify(input))
@@ -83,6 +94,12 @@ func runC04Case(c *Ctx, kind string, input []rune) {
 func propC04(c *Ctx) {
 	propScaleTokenizers(c, "C04")
 	propLongSymbols(c)
+	for _, term := range []string{"\n", "\r", "\r\n", "\u2028", "\u2029", "\u0085", "\v", "\f", ""} {
+		for _, in := range []string{"// note" + term + "x = 1", "a // c" + term + "b", "/* c */ x // y" + term + "z", "//" + term, "/" + term + "/", "/*" + term + "*/ //" + term + term, "x/y //" + term} {
+			runC04Case(c, "P", []rune(in))
+		}
+	}
+	enumStrings([]rune{'/', '*', 'a', '\n', 0x2028, ' '}, 4, func(s []rune) { runC04Case(c, "P", append([]rune(nil), s...)) })
 	nCfg := 400
 	if c.Thorough {
 		nCfg = 8000
